@@ -690,7 +690,7 @@ def run_C04(ctx):
         consts = dict(consts, MaxDepth="2", MaxLen="2")
         ctx.l2_phase("ufunc-broadcast-pairs-deep-simulate", "Session", consts, ("l2replay", "h_c04"), invariants=["Closed"],
                      simulate="num=100000", depth=12, view=None, timeout=2400)
-    consts = session_consts(OpSet='{"ufunc"}', LeafSet=leafset(2), MaxDepth="2" if q else "3", MaxLen="2",
+    consts = session_consts(OpSet='{"ufunc"}', LeafSet=leafset(2), MaxDepth="2", MaxLen="2" if q else "3",
                             Classes='{"ListOffset","List","Regular","IndexedOption","ByteMasked","BitMasked","Indexed","Unmasked"}')
     ctx.l2_phase("ufunc-scalars-deep", "Session", consts, ("l2replay", "h_c04"), invariants=["Closed"],
                  require_actions=["UfuncOp", "WrapRegular", "WrapListOffset", "WrapList", "WrapBitMasked"],
